@@ -74,6 +74,7 @@ class Ctx(object):
         self.evaluations = 0
         self.inconclusive_reasons = []
         self.extra = {}
+        self.last_beat = time.time()
         self.rng = random.Random("%s/%s/%s/%s" % (prop, tier, seed, shard[0]))
 
     # --- helpers for checks -------------------------------------------------
@@ -100,6 +101,7 @@ class Ctx(object):
     def case(self, descriptor=None, nontrivial=True):
         """account one evaluated case; descriptor decides distinctness"""
         self.evaluations += 1
+        self.last_beat = time.time()
         if nontrivial and descriptor is not None:
             self.distinct.add(h(descriptor))
 
@@ -116,9 +118,13 @@ class Ctx(object):
                 return
         self.violations.append({"key": key, "what": what, "witness": jsonable(witness), "count": 1})
 
+    def beat(self):
+        self.last_beat = time.time()
+
     def enough(self, n=25):
         """the verdict is already decided (many raw violations): checks may stop early"""
-        return self.counters["violations_raw"] >= n
+        raw = self.counters["violations_raw"]
+        return raw >= n or (raw > 0 and self.elapsed() > 90)
 
     def inconclusive(self, why):
         self.inconclusive_reasons.append(why)
